@@ -952,6 +952,12 @@ class Interp:
             return IV(w, signed, lo, hi, bits, None, aff)
         if op in ('/', '%'):
             a2, b2, w, signed = self.usual(a, b)
+            if b2.concrete() and b2.lo == 0:
+                # [expr.mul]/4: undefined (SIGFPE on the targets this code base runs on)
+                self.ub_event("division by zero", n)
+                return IV(w, signed, *rng(w, signed))
+            if b2.lo <= 0 <= b2.hi:
+                raise NeedSplit(n, 'divisor %r may be zero' % (b2,))
             if b2.concrete() and b2.lo > 0 and a2.lo >= 0:
                 d = b2.lo
                 if d & (d - 1) == 0 and not a2.concrete():
